@@ -225,10 +225,21 @@ def eval_doc_same_path(first, second, version):
     return {"load": "ok" if r[0] == "ok" else r[1]}
 
 
-def eval_identify(i, drop):
+IDENT_ATTRS = {"subvariant": "Other", "type": "boot", "format": "qcow2", "arch": "aarch64", "disc_number": 7, "unified": True,
+               "additional_variants": ["Zeta"]}
+
+
+def eval_identify(i, drop, then=None):
+    """then = [attribute, value]: the object has been identified (and filed in a manifest) once BEFORE the attribute got this value"""
     import productmd.images as pi
     im = pi.Images()
     img = B.mk_image(im, (POOL + IDENT_EXTRA)[i])
+    if then:
+        call(pi.identify_image, img)
+        call(pi.Images().add, "Server", "x86_64", img)
+        if then[0] == "additional_variants":
+            img.unified = True
+        setattr(img, then[0], then[1])
     lst = []
     r = call(img.serialize, lst)
     if r[0] != "ok":
@@ -310,6 +321,19 @@ def run_unit(unit, acc):
                                   "identify_image(object) %s != identify_image(serialised dict) %s" % (o["object"], o["dict"]))
                 else:
                     acc.outcome("identify:agree")
+        for i in (0, 1):
+            for attr, val in sorted(IDENT_ATTRS.items()):
+                o = eval_identify(i, False, [attr, val])
+                acc.ev()
+                acc.nontriv(("identify-after-change", i, attr))
+                if o["object"] == "refused":
+                    acc.outcome("identify:invalid-object-refused")
+                elif o["object"] != o["dict"] or o["object"][0][0] == "exc":
+                    acc.violation("identify-after-change", {"kind": "identify", "i": i, "drop": False, "then": [attr, val]}, o,
+                                  "after %s of an already identified and filed image was set to %r: identify_image(object) %s != "
+                                  "identify_image(serialised dict) %s" % (attr, val, o["object"], o["dict"]))
+                else:
+                    acc.outcome("identify:agree")
         return
     _, header, hists, tier = unit
     for hist in hists:
@@ -367,7 +391,7 @@ def replay(case):
         return eval_doc(case["placed"], case["version"])
     if case["kind"] == "docpath":
         return eval_doc_same_path(case["first"], case["second"], case["version"])
-    return eval_identify(case["i"], case["drop"])
+    return eval_identify(case["i"], case["drop"], case.get("then"))
 
 
 KNOWN = {}
